@@ -115,6 +115,30 @@ def path_points(case, res, rep, rng):
             break
 
 
+def search_failing(case, rep, oracles, rng):
+    """variations of a run on which model and implementation disagreed: longer budgets, looser and tighter
+    tolerances, caller-owned buffers; all oracles of the solver-level properties are applied"""
+    import copy
+    tried = 0
+    for max_iter in (case.knobs.get("max_iter", 5), 20, 50, 100):
+        for tol in (case.knobs.get("tol", 1e-4), 1e-3, 1e-6):
+            c2 = copy.copy(case)
+            c2.knobs = dict(case.knobs, max_iter=max_iter, tol=tol)
+            c2.explicit_buffers = True
+            r2 = solvers.run_acd(c2)
+            tried += 1
+            if r2["out"] is None:
+                continue
+            nv = len(rep.violations)
+            for o in ("cert", "buffer", "feasible", "history", "descent"):
+                if o in oracles or o in ("cert", "buffer", "feasible"):
+                    ORACLES[o](c2, r2, rep)
+            if len(rep.violations) > nv:
+                rep.extra["search_hits"] = rep.extra.get("search_hits", 0) + 1
+                return
+    rep.extra["search_runs"] = rep.extra.get("search_runs", 0) + tried
+
+
 EXTRA = dict(budget=budget_monotone, path=path_points)
 
 
@@ -125,6 +149,7 @@ def _worker(args):
     rep = Report(prop)
     t0 = time.time()
     kinds = gen_opts.pop("combo", None)
+    searched = 0
     for c in range(n_cases):
         opts = dict(gen_opts)
         if kinds:
@@ -141,8 +166,14 @@ def _worker(args):
                         dict(case.signature(site="AndersonCD.solve"), kind="raises:" + res["err"].split(":")[1]),
                         case=case.describe(), impl_output=res["err"])
             continue
-        if trace:
+        if trace and case.X.shape[1] <= 16:
+            nd = len(rep.disagreements)
             solvers.check_trace_acd(case, res, rep, lean.drive)
+            if len(rep.disagreements) > nd and searched < 6:
+                # the model and the implementation disagree on this run: search around it for a concrete
+                # input on which the property itself fails on the real code
+                searched += 1
+                search_failing(case, rep, oracles, rng)
         for o in oracles:
             if o in ORACLES:
                 ORACLES[o](case, res, rep)
@@ -189,3 +220,92 @@ def merge(rep, r):
     rep.violations += r.violations
     rep.traces += r.traces
     rep.notes += r.notes
+    for k, v in r.extra.items():
+        rep.extra[k] = rep.extra.get(k, 0) + v if isinstance(v, (int, float)) else v
+
+
+# ------------------------------------------------------------------ black-box slice: all other solvers
+
+BB_SOLVERS = ["ProxNewton", "GramCD", "GroupBCD", "GroupProxNewton", "MultiTaskBCD", "FISTA", "LBFGS"]
+
+
+def _bb_worker(args):
+    from .. import bbox
+    prop, seed, solver, chunk, n_cases, oracles, degenerate, ladder = args
+    rng = random.Random(f"{prop}-{seed}-bb-{solver}-{chunk}")
+    rep = Report(prop)
+    for c in range(n_cases):
+        case = bbox.gen_bb(rng, solver, degenerate=degenerate)
+        res = bbox.run_case(case)
+        nontriv = res["out"] is not None and len(res["out"][1]) > 0
+        key = f"bb:{solver}/{case.df.kind}/{case.pen.kind}/{'sp' if case.sparse else 'de'}"
+        rep.count(key, not nontriv, (solver, chunk, c))
+        if res["err"] is not None:
+            cls = res["err"].split(":")[1]
+            # an explanatory refusal of an unsupported combination is legitimate (C13 decides which are)
+            if cls in ("AttributeError", "ValueError") and ("not compatible" in res["err"] or "must" in res["err"]
+                                                          or "not yet supported" in res["err"]
+                                                          or "should only take positive" in res["err"]):
+                continue
+            rep.violate(f"{solver}.solve failed on a legitimate input: {res['err'][:160]}",
+                        dict(case.signature(site=f"{solver}.solve"), kind="raises:" + cls),
+                        case=case.describe(), impl_output=res["err"])
+            continue
+        for o in oracles:
+            bbox.ORACLES[o](case, res, rep, rng)
+        if ladder and res["out"] is not None and solver not in ("FISTA", "LBFGS"):
+            bb_ladder(bbox, case, rep, rng)
+        if len(rep.samples) < 1 and nontriv:
+            rep.sample(dict(solver=solver, datafit=case.df.describe(), penalty=case.pen.describe(), knobs=case.knobs,
+                            shape=list(case.X.shape), n_iter=len(res["out"][1]), stop_crit=float(res["out"][2])))
+    return rep
+
+
+def bb_ladder(bbox, case, rep, rng):
+    """C03 on the other descent solvers: true objective non-increasing along budget ladders"""
+    import copy
+    import numpy as np
+    if case.solver == "ProxNewton" and case.pen.kind in ("mcp", "wmcp", "scad", "l05", "l23", "logsum"):
+        return      # Hessian-based steps 1/L_j are not confined to the penalty's well-posed range
+    inner = {"ProxNewton": "max_pn_iter", "GroupProxNewton": "max_pn_iter", "GroupBCD": "max_epochs",
+             "MultiTaskBCD": "max_epochs"}.get(case.solver)
+    w0 = None
+    ladders = [[("max_iter", k) for k in (0, 1, 2, 3, 5)]]
+    if inner:
+        ladders.append([(inner, e) for e in ((1, 2, 3, 5, 8) if "pn" in inner else (1, 5, 6, 7, 8, 13, 14))])
+    for seq in ladders:
+        last, lastk = None, "start"
+        for name, k in seq:
+            c2 = copy.copy(case)
+            c2.knobs = dict(case.knobs, **{name: k})
+            if name != "max_iter":
+                c2.knobs["max_iter"] = 1
+            r = bbox.run_case(c2)
+            rep.count(f"bb-ladder:{case.solver}:{name}", False, ("bbl", id(case), name, k))
+            if r["out"] is None:
+                break
+            w = r["out"][0]
+            if last is None:
+                wz = np.zeros_like(np.asarray(w, float)) if case.w_init is None else np.asarray(case.w_init, float)
+                last = case.objective(wz)
+            f = case.objective(w)
+            # sparse group constants come from a power iteration stopped at 1e-6 (C09 allows that accuracy)
+            rt = 1e-5 if (case.solver == "GroupBCD" and case.sparse) else 1e-9
+            if not f <= last + rt * (1 + abs(last)):
+                rep.violate(f"the true objective increases when the budget {name} grows from {lastk} to {k}",
+                            dict(case.signature(site=f"{case.solver}.solve"), kind="budget-ascent"),
+                            case=c2.describe(), oracle=dict(previous=last, now=f, budget=[name, lastk, k]))
+                return
+            last, lastk = f, k
+
+
+def run_bbox(ctx, rep, oracles, solvers_=None, n_quick=30, n_thorough=300, degenerate=False, ladder=False,
+             chunks=2):
+    solvers_ = solvers_ or BB_SOLVERS
+    n = ctx.n(n_quick, n_thorough)
+    tasks = [(ctx.prop, ctx.seed, s, ch, max(1, n // chunks), list(oracles), degenerate, ladder)
+             for s in solvers_ for ch in range(chunks)]
+    workers = min(len(tasks), max(1, (os.cpu_count() or 2) - 1))
+    with ProcessPoolExecutor(max_workers=workers) as ex:
+        for r in ex.map(_bb_worker, tasks):
+            merge(rep, r)
